@@ -24,6 +24,8 @@ pub fn units(tier: &str, _seed: u64) -> Vec<String> {
         "1/U:CAL:GASNATURAL;1/O:CAL;D:CAL;D:CAL;P:EL_INSITU;U:NEPB:ELECTRICIDAD;1/U:CAL:TERMOSOLAR#con comentario",
         // a reversible system with auxiliaries: heating (+) and cooling (-) outputs are kept as declared
         "1/U:CAL:ELECTRICIDAD;1/U:REF:ELECTRICIDAD;1/X;1/O:CAL;1/O:REF",
+        // an electricity use tagged as auxiliary in its comment, in a multi-service system with AUX lines
+        "1/U:ACS:ELECTRICIDAD#CTEEPBD_AUX bomba de ACS;1/U:CAL:ELECTRICIDAD#CTEEPBD_EXCLUYE_AUX_ACS;1/X;1/~O:CAL;1/~O:ACS",
         // comments that contain the comment delimiter, on every kind of line
         "2/U:CAL:GASNATURAL#caldera, rend. 0.9 {HASH} dato de fabricante;2/O:CAL#salida {HASH} medida;2/X#aux {HASH} bomba;P:EL_INSITU#PV {HASH} cubierta",
     ];
